@@ -646,3 +646,9 @@ CORPUS += [
     V("C01", "mdcpdp-pairing-minus", R + "mdcpdp/env.py", "new_to_deliver = (current_node + num_loc // 2) % (num_loc + num_depot)", "new_to_deliver = (current_node - num_loc // 2) % (num_loc + num_depot)", "C01.m"),
     V("C01", "eq-pdp-pairing-rename", R + "pdp/env.py", "new_to_deliver", "paired", None, count=99),
 ]
+
+CORPUS += [
+    V("C01", "mdcpdp-delivery-test-reversed", R + "mdcpdp/env.py", "current_carry -= (current_node >= pd_split_idx).long()", "current_carry -= (current_node <= pd_split_idx).long()", "C01.n"),
+    V("C01", "mdcpdp-pickup-test-or", R + "mdcpdp/env.py", "(current_node < pd_split_idx) & (current_node >= num_depot)", "(current_node < pd_split_idx) | (current_node >= num_depot)", "C01.n"),
+    V("C01", "mdcpdp-back-flag-le", R + "mdcpdp/env.py", "back_flag = (current_node < num_depot) & (", "back_flag = (current_node <= num_depot) & (", "C01.n"),
+]
